@@ -4,6 +4,7 @@ answers, rename to a fresh name, apply the edits client-side, check that they ar
 that each replaces exactly the old name, that the edited sources are still accepted and
 compile to the same document (for @references: the same document with that component renamed)."""
 import json
+import os
 import re
 from . import core, lsp, lspws, progs, canon
 
@@ -165,6 +166,61 @@ def check_workspace(ctx, files, tag):
         srv.stop()
 
 
+def two_folders(ctx):
+    """a module shared by the programs of two workspace folders: a rename requested from it edits both programs, each
+    occurrence once"""
+    root = lspws.fresh_dir("c18_two")
+    files = {"orders/oal.toml": '[api]\nmain = "main.oal"\ntarget = "o.yaml"\n', "billing/oal.toml": '[api]\nmain = "main.oal"\ntarget = "b.yaml"\n',
+             "orders/main.oal": 'use "../shared/types.oal" as t;\nres /orders on get -> <{ \'total t.money, \'tip t.money }>;\n',
+             "billing/main.oal": 'use "../shared/types.oal";\nres /bills on get -> <[money]> :: <status=404, tagged>;\n',
+             "shared/types.oal": "// é😉\nlet money = { 'amount num, 'currency str };\nlet tagged = { 'tag str, 'price money };\n"}
+    for n, t in files.items():
+        os.makedirs(os.path.dirname(os.path.join(root, n)), exist_ok=True)
+        with open(os.path.join(root, n), "w") as f:
+            f.write(t)
+    progs_of = {d: {"file://%s/%s" % (root, n): t for n, t in files.items() if n.endswith(".oal") and (n.startswith(d + "/") or n.startswith("shared/"))}
+                for d in ("orders", "billing")}
+    base = {d: progs.compile_many([{"mods": m, "main": "file://%s/%s/main.oal" % (root, d)}])[0] for d, m in progs_of.items()}
+    if any(b.get("status") != "ok" for b in base.values()):
+        ctx.broken.append("the two-folder workspace of the check is not accepted")
+        return
+    srv = lsp.Server(root)
+    try:
+        srv.initialize(folders=["orders", "billing"])
+        shared = "file://%s/shared/types.oal" % root
+        text = files["shared/types.oal"]
+        for needle, new in (("money = {", "cash"), ("price money", "coins"), ("tagged =", "labelled")):
+            off = len(text[:text.find(needle) + (6 if needle.startswith("price") else 0)].encode("utf8"))
+            line, col = lspws.pos_of(text, off)
+            where = {"files": files, "file": "shared/types.oal", "position": [line, col], "folders": ["orders", "billing"]}
+            rn = srv.pos_request("textDocument/rename", shared, line, col, {"newName": new})
+            ctx.cov["evaluations"] += 1
+            if "result" not in rn or not srv.alive():
+                ctx.violation("a rename requested from a module shared by two workspace folders is not answered", where, "a workspace edit", str(rn)[:300])
+                return
+            changes = (rn["result"] or {}).get("changes") or {}
+            edited = {u: t for m in progs_of.values() for u, t in m.items()}
+            for uri, edits in changes.items():
+                if uri not in edited:
+                    ctx.violation("rename edits a document outside the folders", where, sorted(edited), uri)
+                    return
+                newtext, problems, spans = lspws.apply_edits(edited[uri], edits)
+                if problems:
+                    ctx.violation("rename returns overlapping (duplicated) edits for a module shared by two workspace folders", where, "each occurrence once", problems)
+                    return
+                edited[uri] = newtext
+            for d, m in progs_of.items():
+                r2 = progs.compile_many([{"mods": {u: edited[u] for u in m}, "main": "file://%s/%s/main.oal" % (root, d)}])[0]
+                if r2.get("status") != "ok" or canon.canon_doc(r2["doc"]) != canon.canon_doc(base[d]["doc"]):
+                    ctx.violation("after a rename requested from a shared module the program of a folder is rejected or compiles to another document",
+                                  dict(where, folder=d, edited={u.rsplit("/", 2)[-2] + "/" + u.rsplit("/", 1)[-1]: t for u, t in edited.items()}), "same document",
+                                  str(r2.get("msg") or "different document")[:200])
+                    return
+            ctx.count("two_folder_renames")
+    finally:
+        srv.stop()
+
+
 def check(ctx):
     ctx.proof = core.proof_stage("C18", thorough=ctx.thorough)
     ok, out = core.ensure_harness()
@@ -182,6 +238,7 @@ def check(ctx):
          "a.oal": 'use "lib.oal" as c;\nlet x = { \'n c.name };\n', "b.oal": 'use "lib.oal" as c;\nlet y = { \'n c.name };\n',
          "lib.oal": "// 😉\nlet name = str;\n"},
     ]
+    two_folders(ctx)
     n = 90 if ctx.thorough else 8
     wss = corpus + [lspws.gen_workspace(ctx.rng) for _ in range(n)]
     for i, files in enumerate(wss):
